@@ -241,6 +241,12 @@ LkViol(mm, m2, e) ==
   IN
   (IF \E i \in 1..Len(k2.calls) : k2.calls[i].n >= 2 /\ (i > Len(lk.calls) \/ lk.calls[i].n < k2.calls[i].n) THEN {"C09.CallbackTwice"} ELSE {})
   \cup (IF op.o = "end" /\ \E i \in 1..Len(k2.calls) : k2.calls[i].n = 0 THEN {"C09.NoCallback"} ELSE {})
+  \* cut off by the query timeout: a lookup that was already a second past its deadline (measured from its start) before a step that
+  \* makes the service poll its lookups has handed over its result by the end of that step
+  \* (LkViol: new formula for a deadline that moves with each request sent)
+  \cup (IF op.o \in {"age", "poke"} /\ mm.running /\ m2.running
+           /\ \E i \in 1..Len(lk.calls) : lk.calls[i].n = 0 /\ k2.calls[i].n = 0 /\ lk.aged - lk.calls[i].t0 >= mm.cfg.qto + 1000
+        THEN {"C09.Overdue"} ELSE {})
   \cup (IF \E i \in 1..Len(k2.calls) : ~k2.calls[i].mixed /\ \E a, b \in Mine(i) : a < b /\ b > Len(lk.lreqs) /\ k2.lreqs[a].to = k2.lreqs[b].to
         THEN {"C09.SamePeerTwice"} ELSE {})
   \* until `par` peers have answered the lookup cannot have stalled: no more than `par` of its requests are in flight (sent, no outcome
